@@ -26,6 +26,9 @@ def seeds_mdl(rng):
         data, info = mdl.build(m)
         if len(data) < 20000:
             out.append(("generated-v%x" % m["version"], data, []))
+    # valid models with relations random generation does not produce (a shape on a mesh late in a long index list)
+    for label, m in c06.special_models(rng):
+        out.append((label, mdl.build(m)[0], []))
     return out
 
 
